@@ -44,7 +44,7 @@ def gen_case(rnd):
     queries = [[c['name'], 'm'] for c in classes if any(True for _ in [1])]
     # every contract is a precondition, a post / ensure contract or a raises contract (get_contracts lists them in that order)
     kinds = {str(i): rnd.choice(['pre', 'pre', 'pre', 'raises', 'raises', 'post', 'ensure']) for i in range(1, cid + 1)}
-    return {'classes': classes, 'queries': queries, 'kinds': kinds, 'first_disabled': rnd.random() < .3, 'falsy': rnd.random() < .25}
+    return {'classes': classes, 'queries': queries, 'kinds': kinds, 'first_disabled': rnd.random() < .3, 'falsy': rnd.random() < .25, 'gen_methods': rnd.random() < .2}
 
 
 def q(s): return '"' + s + '"'
